@@ -41,6 +41,46 @@ type cev struct {
 	wait bool
 	w    int  // waiter id (wait events)
 	code byte // message code
+	body int  // requests: 0 = the minimal frame [code 0 0 0 0]; n > 0 = variant n of a well-formed request of this code
+}
+
+func sstr(b []byte, s string) []byte {
+	b = append(b, byte(len(s)>>24), byte(len(s)>>16), byte(len(s)>>8), byte(len(s)))
+	return append(b, s...)
+}
+
+// wfBody: a well-formed request with this code, as the standard clients and client.AddSmartcardKey write them
+// (variant selects the optional tail).  Codes without a defined body get the bare code.
+func wfBody(code byte, variant int) []byte {
+	b := []byte{code}
+	blob := sstr(sstr(nil, "ssh-ed25519"), string(make([]byte, 32)))
+	switch code {
+	case 13: // sign request: key blob, data, flags
+		b = sstr(sstr(b, string(blob)), "data")
+		b = append(b, 0, 0, 0, byte(variant%3))
+	case 17, 25: // add identity (constrained): type, public, private, comment [, constraints]
+		b = sstr(sstr(sstr(sstr(b, "ssh-ed25519"), string(make([]byte, 32))), string(make([]byte, 64))), "comment")
+		if code == 25 && variant%2 == 1 {
+			b = append(b, 1, 0, 0, 0, 60)
+		}
+	case 18: // remove identity: key blob
+		b = sstr(b, string(blob))
+	case 20, 21, 26: // smartcard key: reader id, PIN [, constraints]
+		b = sstr(sstr(b, "reader"), "123456")
+		if code == 26 {
+			switch variant % 4 {
+			case 2:
+				b = append(b, 1, 0, 0, 0, 60) // lifetime
+			case 3:
+				b = append(b, 2) // confirm before use
+			case 0:
+				b = append(b, 1, 0, 0, 0, 60, 2)
+			}
+		}
+	case 27: // extension
+		b = sstr(b, "query")
+	}
+	return b
 }
 
 func (e cev) gallina() string {
@@ -52,6 +92,9 @@ func (e cev) gallina() string {
 func (e cev) String() string {
 	if e.wait {
 		return fmt.Sprintf("wait(w%d,code %d)", e.w, e.code)
+	}
+	if e.body > 0 {
+		return fmt.Sprintf("request(code %d, well-formed body %x)", e.code, wfBody(e.code, e.body)[1:])
 	}
 	return fmt.Sprintf("request(code %d)", e.code)
 }
@@ -256,8 +299,11 @@ func play(pr *rand.Rand, w *world, evs []cev) (obs [][]int, problems []string) {
 			// idle connection of an already released waiter
 			req := []byte{e.code, 0, 0, 0, 0}
 			var cl yubiagent.YubiAgent
-			throwaway := e.code == 31 || e.code == 35
+			throwaway := (e.code == 31 || e.code == 35) && e.body == 0
 			switch {
+			case e.body > 0:
+				req = wfBody(e.code, e.body)
+				cl = persistent
 			case throwaway:
 				req = []byte{e.code}
 				cl, _, err = w.connect()
@@ -467,8 +513,9 @@ func agedCase(c *core.Ctx, n int, code byte) {
 
 func runC20(c *core.Ctx) {
 	r := c.Rng
-	W := func(w int, code byte) cev { return cev{true, w, code} }
-	R := func(code byte) cev { return cev{false, 0, code} }
+	W := func(w int, code byte) cev { return cev{true, w, code, 0} }
+	R := func(code byte) cev { return cev{false, 0, code, 0} }
+	RB := func(code byte, variant int) cev { return cev{false, 0, code, variant} }
 
 	// hand-written choreographies first
 	runSched(c, "fixed", []cev{W(1, 11), W(2, 12), W(3, 11), R(13), W(4, 11), R(11), R(11), R(12)})
@@ -485,8 +532,30 @@ func runC20(c *core.Ctx) {
 		runSched(c, "out-of-range-clients", evs)
 	}
 
+	// well-formed requests (what real clients send): one waiter on every code that has a request body, then one
+	// well-formed request; only the waiter on that request's own code may return
+	wfCodes := []byte{11, 13, 17, 18, 19, 20, 21, 25, 26, 27}
+	for _, rc := range wfCodes {
+		for variant := 1; variant <= 4; variant++ {
+			if variant > 1 && rc != 26 && rc != 25 && rc != 13 {
+				continue
+			}
+			var evs []cev
+			for i, wc := range wfCodes {
+				evs = append(evs, W(i+1, wc))
+			}
+			evs = append(evs, RB(rc, variant))
+			for _, oc := range wfCodes {
+				if r.Intn(2) == 0 {
+					evs = append(evs, RB(oc, 1+r.Intn(4)))
+				}
+			}
+			runSched(c, "well-formed-requests", evs)
+		}
+	}
+
 	// seeded choreographies
-	palette := []byte{0, 1, 5, 11, 13, 17, 18, 19, 20, 22, 23, 25, 27, 30, 31, 32, 33, 34, 35, 36, 38, 39}
+	palette := []byte{0, 1, 5, 11, 13, 17, 18, 19, 20, 21, 22, 23, 25, 26, 27, 30, 31, 32, 33, 34, 35, 36, 38, 39}
 	n := c.N(60, 1500)
 	for i := 0; i < n; i++ {
 		nw := 1 + r.Intn(8)
@@ -514,6 +583,8 @@ func runC20(c *core.Ctx) {
 				evs = append(evs, R(palette[r.Intn(len(palette))]))
 			case r.Intn(10) == 0:
 				evs = append(evs, R(byte(40+r.Intn(216))))
+			case r.Intn(4) == 0:
+				evs = append(evs, RB(wfCodes[r.Intn(len(wfCodes))], 1+r.Intn(4)))
 			default:
 				evs = append(evs, R(codes[r.Intn(len(codes))]))
 			}
